@@ -38,6 +38,7 @@ type Config struct {
 	Enter         bool               // weave a call to the host import enter(i32 funcIndex) into every function entry (ground truth for C20)
 	WASI          bool               // import a few wasi_snapshot_preview1 functions and use them
 	DebugSections [][]wasmenc.Custom // real DWARF section sets (LoadDebugSections) to attach instead of the minimal pair
+	TailRich      bool               // end many functions with tail calls, preferring loops through a table slot that holds the function itself
 	Closer        bool               // import env.closer (i32)->i32: the host closes the CALLING module (exit code 7) when arg&7 == 0, and returns
 }
 
@@ -89,7 +90,8 @@ type gen struct {
 	passiveE    map[byte][]int
 	nData       int
 	nElem       int
-	funcTable   int // index of a funcref table or -1
+	funcTable   int            // index of a funcref table or -1
+	initSlots   map[int]uint32 // initial contents of the funcref table written by the active element segment
 	fuelIdx     uint32
 	wasiFdWr    int
 	sinkIdx     int // global index of the sink or -1
@@ -376,8 +378,10 @@ func (g *gen) module() {
 			n := g.rng(1, int(ti.Min), "nelem")
 			off := g.rng(0, int(ti.Min)-n, "elemoff")
 			fs := make([]uint32, n)
+			g.initSlots = map[int]uint32{}
 			for i := range fs {
 				fs[i] = g.anyFn(total, "elemfn")
+				g.initSlots[off+i] = fs[i]
 			}
 			if g.funcTable == 0 {
 				m.Elems = append(m.Elems, wasmenc.ActiveElemFuncs(int32(off), fs))
@@ -722,7 +726,11 @@ func (g *gen) function(idx uint32, s Sig) {
 	}
 	term := g.stmts(g.cfg.MaxStmts)
 	if !term {
-		if g.has(FeatTailCall) && g.chance(6, "tail") && g.tailCall() {
+		tailp := 6
+		if g.cfg.TailRich {
+			tailp = 50
+		}
+		if g.has(FeatTailCall) && g.chance(tailp, "tail") && g.tailCall() {
 			// terminated by a tail call
 		} else {
 			for _, r := range s.R {
@@ -768,8 +776,41 @@ func (g *gen) tailCall() bool {
 		return false
 	}
 	fn := c[g.intn(len(c), "tailfn")]
+	selfSlot := -1
+	if g.cfg.TailRich && g.chance(60, "tailself") {
+		// a loop made only of tail calls: this function again, directly or through the table slot
+		// that initially holds it (it ends when the fuel runs out, after thousands of steps)
+		fn = g.f.idx
+		for slot := 0; slot < 64; slot++ {
+			if f, ok := g.initSlots[slot]; ok && f == g.f.idx {
+				selfSlot = slot
+				break
+			}
+		}
+	}
 	for _, p := range g.sigs[fn].P {
 		g.expr(p, 2)
+	}
+	if selfSlot >= 0 && g.chance(70, "tailselfindirect") {
+		typ := g.m.AddType(g.sigs[fn].P, g.sigs[fn].R)
+		g.i32const(int32(selfSlot))
+		g.stat("tailcall-indirect-self-loop")
+		g.f.emit("return_call_indirect", wasmenc.NewB().ReturnCallIndirect(typ, uint32(g.funcTable)).Bytes(), int64(typ), int64(g.funcTable))
+		return true
+	}
+	if g.funcTable >= 0 && g.chance(35, "tailindirect") {
+		// return_call_indirect with the chosen function's signature through a table slot (which
+		// may hold that function, another one of the same type, something else or null)
+		ti := g.out.Tables[g.funcTable]
+		if ti.Min > 0 && g.chance(85, "tciinrange") {
+			g.i32const(int32(g.intn(int(ti.Min), "tcislot")))
+		} else {
+			g.expr(I32, 2)
+		}
+		typ := g.m.AddType(g.sigs[fn].P, g.sigs[fn].R)
+		g.stat("tailcall-indirect")
+		g.f.emit("return_call_indirect", wasmenc.NewB().ReturnCallIndirect(typ, uint32(g.funcTable)).Bytes(), int64(typ), int64(g.funcTable))
+		return true
 	}
 	g.stat("tailcall")
 	g.f.emit("return_call", wasmenc.NewB().ReturnCall(fn).Bytes(), int64(fn))
